@@ -28,21 +28,34 @@ def inference_region(f):
     return body[idx + 1:] if idx is not None else body, (body[idx] if idx is not None else None)
 
 
+def regex_patterns(ctx, modname):
+    """{name: pattern} of module-level `name = re.compile("...")`."""
+    out = {}
+    for n in ctx.proj.module(modname).tree.body:
+        if isinstance(n, ast.Assign) and isinstance(n.value, ast.Call) and norm(n.value.func) == "re.compile" and n.value.args \
+                and const_str(n.value.args[0]) is not None and isinstance(n.targets[0], ast.Name):
+            out[n.targets[0].id] = const_str(n.value.args[0])
+    return out
+
+
 def r1(ctx):
+    from ..util import closure
     dk = set(ctx.folder.const("constants", "dialect"))
     sk = require_func(ctx, "parser._split_keyvals")
     rc = require_func(ctx, "parser._reconstruct")
-    inf, prov = inference_region(sk)
-    written = {}
-    for st in inf:
-        _r, w = dialect_keys(st)
-        written.update(w)
+    sk_scope = closure(ctx, sk)
+    rc_scope = closure(ctx, rc)
+    written, r_sk, r_rc, w_rc = {}, {}, {}, {}
+    for f in sk_scope:
+        for name in ("dialect",):
+            rr, ww = dialect_keys(f.node, name)
+            r_sk.update(rr)
+            written.update(ww)
+    for f in rc_scope:
+        rr, ww = dialect_keys(f.node)
+        r_rc.update(rr)
+        w_rc.update(ww)
     ctx.floor("R1", len(written), 5, "dialect keys recorded by inference")
-    r_rc, w_rc = dialect_keys(rc.node)
-    r_sk, _ = dialect_keys(sk.node)
-    for nested in [g for lst in sk.nested.values() for g in lst]:
-        rr, _w = dialect_keys(nested.node)
-        r_sk.update(rr)
     for k, n in sorted(written.items()):
         ctx.ob("R1", k in dk, "inference records only keys of the dialect dictionary", node=n, func=sk, sig="inference writes %r%s" % (k, "" if k in dk else " (not a dialect key)"), nontrivial=False)
     for k, n in sorted(list(r_rc.items()) + list(r_sk.items()), key=lambda kv: kv[0]):
@@ -55,14 +68,12 @@ def r1(ctx):
                sig="%r recorded and replayed" % k if k in r_rc else "%r recorded by inference but never read by _reconstruct" % k)
     for k in sorted(set(dk) - set(NOT_REPLAYED)):
         ctx.ob("R1", k in r_rc, "reconstruction consults the dialect's %r" % k, func=rc, sig="_reconstruct reads %r" % k if k in r_rc else "_reconstruct ignores %r" % k)
-    # the provided-dialect path consults the same choices when splitting
-    if prov is not None:
-        rp, _ = dialect_keys(prov)
-        for k in ("trailing semicolon", "field separator", "keyval separator", "quoted GFF2 values", "fmt"):
-            ctx.ob("R1", k in rp, "splitting with a supplied dialect consults its %r" % k, node=prov, func=sk,
-                   sig="provided-dialect split reads %r" % k if k in rp else "provided-dialect split ignores %r" % k)
+    for k in ("trailing semicolon", "field separator", "keyval separator", "quoted GFF2 values", "fmt"):
+        ctx.ob("R1", k in r_sk, "splitting consults the dialect's %r" % k, func=sk,
+               sig="_split_keyvals reads %r" % k if k in r_sk else "_split_keyvals ignores %r" % k)
     ctx.ob("R1", not w_rc, "reconstruction does not modify the dialect", func=rc, sig="_reconstruct writes %s" % sorted(w_rc))
-    no_dialect_mutation(ctx, rc, "R1")
+    for f in rc_scope:
+        no_dialect_mutation(ctx, f, "R1")
 
 
 MUTATORS = {"append", "extend", "update", "pop", "popitem", "sort", "clear", "setdefault", "remove", "insert", "reverse"}
@@ -160,8 +171,9 @@ def _diff_kind(problem):
 
 def decoder_names(ctx, sk):
     """Names of the nested helpers of _split_keyvals that percent-decode."""
+    from ..util import closure
     out = set()
-    for g in [g for lst in sk.nested.values() for g in lst]:
+    for g in [g for g in closure(ctx, sk) if g is not sk]:
         for c in calls_in(g.node):
             d = ctx.proj.dotted(c.func, g.module, g) or ""
             if d.startswith("urllib") and d.split(".")[-1] in ("unquote", "unquote_plus", "unquote_to_bytes"):
@@ -172,8 +184,9 @@ def decoder_names(ctx, sk):
 def r_decode_layer(ctx, rule="R4"):
     """Decoding is the last parsing layer: applied to each value separately, the decoded text is never split again, and it is
     decided only after inference has fixed the format."""
+    from ..util import closure
     sk = require_func(ctx, "parser._split_keyvals")
-    pool = [sk] + [g for lst in sk.nested.values() for g in lst]
+    pool = closure(ctx, sk)
     decs = []
     for f in pool:
         for c in calls_in(f.node):
@@ -212,155 +225,101 @@ def r_decode_layer(ctx, rule="R4"):
 
 
 def r2_r3(ctx):
+    """Separator candidates are tried longest-first (wherever the probing loop lives)."""
+    from ..util import closure
     sk = require_func(ctx, "parser._split_keyvals")
-    rc = require_func(ctx, "parser._reconstruct")
-    d = ctx.folder.const("constants", "dialect")
-    loops = [n for n in ast.walk(sk.node) if isinstance(n, ast.For) and isinstance(n.iter, (ast.Tuple, ast.List)) and n.iter.elts
-             and all(const_str(e) is not None for e in n.iter.elts) and any(";" in const_str(e) for e in n.iter.elts)]
-    ctx.floor("R2", len(loops), 1, "separator candidate loops")
-    seps = [const_str(e) for e in loops[0].iter.elts]
-    bad = [(a, b) for i, a in enumerate(seps) for b in seps[i + 1:] if a in b]
-    ctx.ob("R2", not bad, "field separators are tried longest-first: no earlier candidate is contained in a later one", node=loops[0], func=sk,
-           sig="separator candidates %r" % (seps,) if not bad else "candidate %r shadows the later %r" % bad[0])
-    ctx.ob("R2", set(seps) >= {" ; ", "; ", ";"}, "all three field separators of the grammar are candidates", node=loops[0], func=sk, sig="candidates %r" % (seps,), nontrivial=False)
-    brk = [n for n in ast.walk(loops[0]) if isinstance(n, ast.Break)]
-    g = [norm(t) for b in brk[:1] for t, pol in guards_of(b, loops[0]) if pol]
-    st = [n for n in ast.walk(loops[0]) if isinstance(n, ast.Assign) and norm(n.targets[0]) == "dialect['field separator']"]
-    ok = bool(brk) and g == ["len(parts) > 1"] and bool(st) and is_name(st[0].value, loops[0].target.id)
-    ctx.ob("R2", ok, "the first candidate that actually splits the string is recorded, and the search stops", node=loops[0], func=sk,
-           sig="first splitting candidate recorded under %s" % g)
-    # ---- R3 literals
-    inf, prov = inference_region(sk)
-    mv = d["multival separator"]
-    splits = [c for st_ in inf for c in ast.walk(st_) if isinstance(c, ast.Call) and call_attr(c) == "split" and c.args and norm(c.func.value) == "val"]
-    ctx.floor("R3", len(splits), 1, "multi-value splits in inference")
-    for c in splits:
-        ctx.ob("R3", const_str(c.args[0]) == mv, "values are split on the dialect's multi-value separator", node=c, func=sk, sig="multi-value split literal %r vs dialect %r" % (const_str(c.args[0]), mv))
-    if prov is not None:
-        for c in [c for c in ast.walk(prov) if isinstance(c, ast.Call) and call_attr(c) == "split" and c.args and norm(c.func.value) == "val"]:
-            ok = const_str(c.args[0]) == mv or norm(c.args[0]) == "dialect['multival separator']"
-            ctx.ob("R3", ok, "with a supplied dialect values are split on the multi-value separator", node=c, func=sk, sig="provided-dialect multi-value split on %s" % norm(c.args[0]))
-    if prov is not None:
-        local = {}
-        for n in ast.walk(prov):
-            if isinstance(n, ast.Assign) and isinstance(n.targets[0], ast.Name) and isinstance(n.value, ast.Subscript) and norm(n.value.value) == "dialect":
-                local[n.targets[0].id] = const_str(n.value.slice)
-        fs = [c for c in ast.walk(prov) if isinstance(c, ast.Call) and call_attr(c) == "split" and norm(c.func.value) == "keyval_str"]
-        ok = bool(fs) and all(c.args and (norm(c.args[0]) == "dialect['field separator']" or local.get(getattr(c.args[0], "id", None)) == "field separator") for c in fs)
-        ctx.ob("R3", ok, "with a supplied dialect the column is split on the dialect's field separator", node=prov, func=sk,
-               sig="provided-dialect field split on %s" % ([norm(c.args[0]) if c.args else "whitespace" for c in fs] or None))
-        kvs = [c for c in ast.walk(prov) if isinstance(c, ast.Call) and call_attr(c) == "split" and norm(c.func.value) in ("p", "p.strip()")]
-        ok = bool(kvs) and all(c.args and (norm(c.args[0]) == "dialect['keyval separator']" or local.get(getattr(c.args[0], "id", None)) == "keyval separator") for c in kvs)
-        ctx.ob("R3", ok, "with a supplied dialect key and value are split on the dialect's key/value separator (not on arbitrary whitespace)", node=prov, func=sk,
-               sig="provided-dialect key/value split on %s" % (sorted({norm(c.args[0]) if c.args else "whitespace" for c in kvs}) or None))
-    q_strip = set()
-    for n in ast.walk(sk.node):
-        if isinstance(n, ast.Compare) and norm(n.left) in ("val[0]", "val[-1]") and const_str(n.comparators[0]) is not None:
-            q_strip.add(const_str(n.comparators[0]))
-    q_add = [n for n in ast.walk(rc.node) if isinstance(n, ast.BinOp) and isinstance(n.op, ast.Mod) and const_str(n.left) and "%s" in const_str(n.left)]
-    qa = const_str(q_add[0].left) if q_add else None
-    ok = q_strip == {'"'} and qa == '"%s"'
-    ctx.ob("R3", ok, "the quote stripped when parsing is the quote added when printing", func=rc, sig="strip %r / add %r" % (sorted(q_strip), qa))
-    kv = [c for st_ in inf for c in ast.walk(st_) if isinstance(c, ast.Call) and call_attr(c) == "split" and c.args and const_str(c.args[0]) in ("=", " ") and
-          isinstance(c.func.value, (ast.Name, ast.Call))]
-    lits = sorted({const_str(c.args[0]) for c in kv})
-    ctx.ob("R3", lits == [" ", "="], "inference splits key from value on '=' (gff3) or ' ' (gtf/gff2)", func=sk, sig="key/value split literals %r" % lits)
-    rec = {}
-    for st_ in inf:
-        for n in ast.walk(st_):
-            if isinstance(n, ast.Assign) and norm(n.targets[0]) == "dialect['keyval separator']" and const_str(n.value) is not None:
-                br = enclosing(n, ast.If)
-                rec[const_str(n.value)] = n
-    ok = set(rec) == {"=", " "} and d["keyval separator"] == "="
-    ctx.ob("R3", ok, "the separator recorded is the one split on ('=' is also the default)", func=sk, sig="recorded key/value separators %r" % sorted(rec))
-    for lit, n in rec.items():
-        blk = n._parent.body if n in getattr(n._parent, "body", []) else getattr(n._parent, "orelse", [])
-        sp = [c for s_ in blk for c in ast.walk(s_) if isinstance(c, ast.Call) and call_attr(c) == "split" and c.args and const_str(c.args[0]) in ("=", " ")]
-        ok = bool(sp) and all(const_str(c.args[0]) == lit for c in sp)
-        ctx.ob("R3", ok, "in the branch that records %r the split literal is %r" % (lit, lit), node=n, func=sk,
-               sig="branch recording %r splits on %r" % (lit, sorted({const_str(c.args[0]) for c in sp})), nontrivial=False)
+    loops = []
+    for f in closure(ctx, sk):
+        for n in ast.walk(f.node):
+            if isinstance(n, ast.For) and isinstance(n.iter, (ast.Tuple, ast.List)) and n.iter.elts \
+                    and all(const_str(e) is not None for e in n.iter.elts) and any(";" in const_str(e) for e in n.iter.elts):
+                loops.append((f, n))
+    ctx.ob("R2", len(loops) >= 1, "inference probes the candidate field separators", func=sk,
+           sig="separator candidates probed" if loops else "no separator candidate loop in the parser", nontrivial=False)
+    for f, lp in loops:
+        seps = [const_str(e) for e in lp.iter.elts]
+        bad = [(a, b) for i, a in enumerate(seps) for b in seps[i + 1:] if a in b]
+        ctx.ob("R2", not bad, "field separators are tried longest-first: no earlier candidate is contained in a later one", node=lp, func=f,
+               sig="separator candidates %r" % (seps,) if not bad else "candidate %r shadows the later %r" % bad[0])
+        ctx.ob("R2", set(seps) >= {" ; ", "; ", ";"}, "all three field separators of the grammar are candidates", node=lp, func=f, sig="candidates %r" % (seps,), nontrivial=False)
 
 
-def _first(nodes):
-    return sorted(nodes, key=lambda n: (n.lineno, n.col_offset))[0] if nodes else None
-
-
-def r4(ctx):
-    rc = require_func(ctx, "parser._reconstruct")
-    cfg = cfg_of(rc)
-
-    def djoin(key):
-        return [c for c in calls_in(rc.node) if call_attr(c) == "join" and norm(c.func.value) == "dialect['%s']" % key]
-    mvj = djoin("multival separator")
-    kvj = djoin("keyval separator")
-    fsj = djoin("field separator")
-    quote = [n for n in ast.walk(rc.node) if isinstance(n, ast.If) and norm(n.test) == "dialect['quoted GFF2 values']"]
-    trail = [n for n in ast.walk(rc.node) if isinstance(n, ast.If) and norm(n.test) == "dialect['trailing semicolon']"]
-    enc = [n for n in ast.walk(rc.node) if isinstance(n, ast.Subscript) and is_name(n.value, "quoter")]
-    steps = [("percent-encoding", _first(enc)), ("multi-value join", _first(mvj)), ("quoting", _first(quote)),
-             ("key/value join", _first([c for c in kvj if mvj and c.lineno > _first(mvj).lineno] or kvj)),
-             ("field join", _first(fsj)), ("trailing semicolon", _first(trail))]
-    for name, n in steps:
-        ctx.ob("R4", n is not None, "printing has a %s step" % name, func=rc, sig="print step %s %s" % (name, "present" if n is not None else "missing"), nontrivial=False)
-    present = [(a, b) for a, b in steps if b is not None]
-    for (na, a), (nb, b) in zip(present, present[1:]):
-        an, bn = cfg.node_for(a), cfg.node_for(b)
-        ok = bn.id in cfg.reachable(an.id) and not (an.id in cfg.reachable(bn.id) and a.lineno > b.lineno) and a.lineno < b.lineno
-        ctx.ob("R4", ok, "printing applies %s before %s (the inverse of the parsing order)" % (na, nb), node=b, func=rc,
-               sig="print order: %s < %s" % (na, nb) if ok else "print order broken: %s is not before %s" % (na, nb))
+def r_roundtrip(ctx, rule="R3"):
+    """Template round trip: for every consistent dialect the template it denotes for a symbolic mapping parses back to
+    that mapping (dialect supplied and inferred), and inference reports the dialect the template was written in."""
+    from .. import printer
+    from ..absint import Unsupported
     sk = require_func(ctx, "parser._split_keyvals")
-    inf, prov = inference_region(sk)
-    scfg = cfg_of(sk)
+    pats = regex_patterns(ctx, "parser")
+    pat = None
+    for k, v in pats.items():
+        pat = (k, v)
+    n = 0
+    reported = set()
 
-    def find(pred):
-        out = []
-        for st in inf:
-            for n in ast.walk(st):
-                if pred(n):
-                    out.append(n)
-        return _first(out)
-    psteps = [
-        ("trailing-semicolon strip", find(lambda n: isinstance(n, ast.Assign) and is_name(n.targets[0], "keyval_str") and norm(n.value) == "keyval_str[:-1]")),
-        ("field split", find(lambda n: isinstance(n, ast.Call) and call_attr(n) == "split" and norm(n.func.value) == "keyval_str")),
-        ("key/value split", find(lambda n: isinstance(n, ast.Call) and call_attr(n) == "split" and n.args and const_str(n.args[0]) in ("=", " "))),
-        ("quote strip", find(lambda n: isinstance(n, ast.Assign) and is_name(n.targets[0], "val") and norm(n.value) == "val[1:-1]")),
-        ("multi-value split", find(lambda n: isinstance(n, ast.Call) and call_attr(n) == "split" and norm(n.func.value) == "val")),
-        ("percent-decoding", find(lambda n: isinstance(n, ast.Call) and (
-            (isinstance(n.func, ast.Name) and n.func.id in decoder_names(ctx, sk)) or
-            (ctx.proj.dotted(n.func, sk.module, sk) or "").startswith("urllib")))),
-    ]
-    for name, n in psteps:
-        ctx.ob("R4", n is not None, "parsing has a %s step" % name, func=sk, sig="parse step %s %s" % (name, "present" if n is not None else "missing"), nontrivial=False)
-    present = [(a, b) for a, b in psteps if b is not None]
-    for (na, a), (nb, b) in zip(present, present[1:]):
-        ok = a.lineno < b.lineno and scfg.node_for(b).id in scfg.reachable(scfg.node_for(a).id)
-        ctx.ob("R4", ok, "parsing applies %s before %s" % (na, nb), node=b, func=sk, sig="parse order: %s < %s" % (na, nb) if ok else "parse order broken: %s not before %s" % (na, nb))
-    pn = [s[0] for s in psteps if s[1] is not None]
-    rn = [s[0] for s in steps if s[1] is not None]
-    inverse = {"trailing-semicolon strip": "trailing semicolon", "field split": "field join", "key/value split": "key/value join",
-               "quote strip": "quoting", "multi-value split": "multi-value join", "percent-decoding": "percent-encoding"}
-    ok = [inverse[p] for p in pn] == rn[::-1]
-    ctx.ob("R4", ok, "the printing layers are exactly the parsing layers, inverted and reversed", func=rc,
-           sig="layers mirror each other" if ok else "layers differ: parse %s / print %s" % (pn, rn))
-    # valueless flags and empty values
-    flag = [n for n in ast.walk(rc.node) if isinstance(n, ast.Assign) and is_name(n.targets[0], "part") and is_name(n.value, "key")]
-    ctx.ob("R4", len(flag) >= 1, "a key without a value is printed as the bare key", func=rc, sig="%d bare-key print branch(es)" % len(flag), nontrivial=False)
-    empty = [n for n in ast.walk(rc.node) if isinstance(n, ast.If) and norm(n.test) in ("not keyvals",) and any(isinstance(b, ast.Return) and const_str(b.value) == "" for b in n.body)]
-    ctx.ob("R4", len(empty) == 1, "an empty attribute mapping prints as the empty column", func=rc, sig="empty mapping -> ''" if empty else "empty mapping not printed as ''", nontrivial=False)
+    def fail(kind, detail):
+        if kind not in reported:
+            reported.add(kind)
+            ctx.ob(rule, False, "parsing the template a consistent dialect denotes for {k1:[v1,v2], k2:[v3], k3:[]} returns that mapping (values decoded "
+                   "exactly when they were encoded) and, without a supplied dialect, infers the dialect it was written in", func=sk,
+                   sig="round trip: %s" % kind, detail=detail)
+    for fam, cfg in printer.parse_configs():
+        for mp in printer.PARSE_MAPPINGS + (printer.PARSE_MAPPINGS_QUOTED if cfg["quoted GFF2 values"] else []):
+            text = printer.template_astr(cfg, mp)
+            dial = {k: v for k, v in cfg.items() if not k.startswith("_")}
+            want = {k: [printer.value_name(x) for x in v] for k, v in mp}
+            for mode, d in (("supplied", dial), ("inferred", None)):
+                label = "%s dialect, %s, template %r" % (mode, fam, text.render())
+                try:
+                    traces = printer.parse_run(ctx, sk, text, d, pat)
+                except Unsupported as e:
+                    ctx.require(False, "attribute parser outside the analysable subset: %s" % e)
+                for t in traces:
+                    n += 1
+                    if t.result[0] != "return":
+                        fail("parser raises %s (%s dialect)" % (t.result[1], mode), label)
+                        continue
+                    res = t.result[1]
+                    if not (isinstance(res, tuple) and len(res) == 2 and isinstance(res[0], dict)):
+                        fail("parser does not return (mapping, dialect)", label)
+                        continue
+                    got = printer.names_of(res[0])
+                    if got != want:
+                        decoded = any(isinstance(x, str) and x.startswith("dec(") for v_ in got.values() for x in v_)
+                        undec = any(isinstance(x, str) and x.startswith("enc(") for v_ in got.values() for x in v_)
+                        kind = "values decoded although they were not encoded" if decoded else "encoded values not decoded" if undec else "mapping not recovered"
+                        fail("%s (%s, %s dialect)" % (kind, fam, mode), "%s :: parsed %s, expected %s" % (label, got, want))
+                    if mode == "inferred":
+                        dl = res[1] if isinstance(res[1], dict) else {}
+                        exp = {k: cfg[k] for k in ("fmt", "field separator", "keyval separator", "quoted GFF2 values", "trailing semicolon")}
+                        exp["repeated keys"] = bool(cfg["repeated keys"] and any(len(v) > 1 for _k, v in mp))
+                        exp["order"] = [k for k, _v in mp]
+                        if cfg["repeated keys"]:
+                            exp["order"] = [k for k, v in mp for _i in range(max(1, len(v)))]
+                        diff = sorted(k for k in exp if dl.get(k) != exp[k])
+                        if diff:
+                            fail("inferred dialect differs in %s (%s)" % (diff, fam), "%s :: inferred %s, written as %s" % (label, {k: dl.get(k) for k in diff}, {k: exp[k] for k in diff}))
+    ctx.extra["roundtrip_traces"] = n
+    ctx.ob(rule, not reported, "template round trip evaluated on %d parses (36 consistent dialects x 2 mappings, plus blank-carrying quoted values, x supplied/inferred)" % n, func=sk,
+           sig="template round trip holds" if not reported else "template round trip fails (%d kinds)" % len(reported))
+    ctx.assume("template round trip: attribute values are opaque and free of the structural characters %r; keys are plain words" % printer.STRUCTURAL)
 
 
 def check(ctx):
     ctx.explanation = (
-        "Shape clauses of the round trip: set comparison of the dialect keys written by inference, read by reconstruction and declared in "
-        "constants.dialect; substring order of the separator candidates; equality of the literals used to split and to join; CFG order of "
-        "the six parsing layers and of the six printing layers, which must mirror each other. Column handling is decided with C01.R5. Does "
-        "not decide byte-for-byte identity for every line of the grammar: that is the inverse of a string transducer over unbounded values "
-        "(symbolic execution of the parser would be a different family).")
+        "Both halves of the round trip are decided on templates by the partitioned string dataflow (strings with holes; no solver): "
+        "_reconstruct is evaluated for a symbolic mapping under every dialect configuration and compared token by token with the template "
+        "the dialect denotes; that template is then fed to _split_keyvals, with the dialect supplied and inferred, and must parse back to the "
+        "mapping, with inference reporting the dialect it was written in. Around that: set comparison of the dialect keys written by "
+        "inference / read by reconstruction / declared; longest-first order of the separator candidates; the decode layer (per value, never "
+        "re-split, after the format is final); printing never mutates the shared dialect; column handling by abstract evaluation of "
+        "feature_from_line / __unicode__ (C01.R5). Values are opaque and free of structural characters: byte-for-byte identity for "
+        "arbitrary values (escapes inside values, blanks inside values) is not decided.")
     r1(ctx)
     r2_r3(ctx)
-    r4(ctx)
     r_decode_layer(ctx)
     r_printer(ctx)
+    r_roundtrip(ctx)
     from . import c01
     n0 = len(ctx.obs)
     c01.r5(ctx)
